@@ -247,6 +247,25 @@ func propDelivery(t *rapid.T) {
 	}
 	wg.Wait()
 	time.Sleep(8 * time.Millisecond) // let the last delayed sends fire (max delay 4 ms)
+	if mbox == 0 {
+		// a timer may fire late on a busy machine: wait for the delayed items themselves
+		kit.WaitUntil(5*time.Second, func() bool {
+			seen := map[item]bool{}
+			for _, e := range probe.EventsOf("recv") {
+				if it, ok := e.Msg.(item); ok {
+					seen[it] = true
+				}
+			}
+			mu.Lock()
+			defer mu.Unlock()
+			for m := range delayedUnknown {
+				if !seen[m] {
+					return false
+				}
+			}
+			return true
+		})
+	}
 
 	quiet := func() bool { return kit.Quiesced(node, pid) }
 	if !kit.WaitUntil(3*time.Second, quiet) {
